@@ -7,6 +7,7 @@ reachable store in C01); the theorems below take that uniqueness as the explicit
 -/
 import BHS.Model.Query
 import BHS.Spec.BestChain
+import BHS.Gen.Verdict
 
 namespace BHS.Props.C02
 open BHS BHS.Chain
@@ -213,6 +214,41 @@ theorem C02_tracks_reorg_off (s' : Store H) (e : Int) (tipH : Nat) (root : H) (h
 theorem C02_tracks_reorg_on (s' : Store H) (e : Int) (tipH : Nat) (r : Row H) (hu : LcUnique s')
     (hon : r ∈ s') (hlc : r.st = .lc) : verifyItem s' e tipH r.merkle r.height = (.confirmed, some r.hash) :=
   (C02_confirmed s' e tipH r.merkle r.height hu r.hash).mpr ⟨r, ⟨hon, hlc, rfl⟩, rfl, rfl⟩
+
+/-! ### tie to the source by translation
+`Gen.toMerkleRootConfirmation` and `Gen.convertState` are TRANSLATED from repository/dto/headers.go and
+merkleroots/model.go on every run (harness/cmd/extract/gen_verdict.go); the hand-written `verifyItem` / `severity`
+are proved equal to them, so an edit of the Go classification re-opens these obligations. -/
+
+/-- the JSON name of a verdict -/
+def verdictName : Verdict → String
+  | .confirmed => "CONFIRMED"
+  | .unable => "UNABLE_TO_VERIFY"
+  | .invalid => "INVALID"
+
+theorem wrapS32_id (x : Int) (h : -2147483648 ≤ x ∧ x < 2147483648) : wrapS 32 x = x := by
+  unfold wrapS; omega
+
+/-- the classification the model uses is the translated Go classification, for all int32 heights -/
+theorem C02_verdict_translated (s : Store H) (e : Int) (tipH : Nat) (root : H) (h : Int)
+    (hh : -2147483648 ≤ h ∧ h < 2147483648) (ht : (tipH : Int) < 2147483648) :
+    Gen.toMerkleRootConfirmation (verifyHash s root h).isSome h tipH e
+      = verdictName (verifyItem s e tipH root h).1 := by
+  unfold Gen.toMerkleRootConfirmation verifyItem
+  have hw : wrapS 32 e = toInt32 e := by unfold wrapS toInt32; omega
+  cases hv : verifyHash s root h with
+  | some r => simp [verdictName]
+  | none =>
+    simp only [Option.isSome_none, Bool.false_eq_true, if_false]
+    by_cases hgt : h > (tipH : Int)
+    · have hd : wrapS 32 (h - (tipH : Int)) = h - (tipH : Int) := wrapS32_id _ (by omega)
+      rw [hd, hw]
+      by_cases hle : h - (tipH : Int) ≤ toInt32 e <;> simp [hgt, hle, verdictName]
+    · simp [hgt, verdictName]
+
+/-- the severity order the model uses is the translated `convertState` -/
+theorem C02_severity_translated (v : Verdict) : Gen.convertState (verdictName v) = severity v := by
+  cases v <;> decide
 
 -- non-vacuity: a concrete store with a fork (stale sibling at height 1) satisfying the hypotheses
 def exStore : Store Nat :=
